@@ -29,7 +29,7 @@ import runlib
 import specgen_c12
 import specgen_metrics
 
-LEVEL = "proof"
+LEVEL = "translation_validation"
 
 COQ_IMPORTS = ["TV.Model.Show", "TV.Model.Py", "TV.Model.XRef", "TV.Model.TraceNames"]
 
@@ -564,7 +564,7 @@ def run(ctx):
         "events": ev_counts, "consuming_events": consumptions, "failing_programs": n_fail, "failures_by_kind": fail_kinds,
         "name_model_correspondence": teq, "f8_witness_fails_on_implementation": witness_seen,
         "population": stats,
-        "rule": "five accelerator YAMLs + C11's generated architectures + compute-only cascades + tools/specgen_c12.py: 10 Einsum templates (1-2 Einsums, up to 4 loop ranks, 2- and 3-way intersections) x loop orders x "
+        "rule": "five accelerator YAMLs + C11's generated architectures + compute-only cascades + tools/specgen_c12.py: 11 Einsum templates (1-2 Einsums, up to 4 loop ranks, 2- and 3-way intersections, multi-character tensor names) x loop orders x "
                 "rank orders x optional shape partitioning x 1-2 formats per tensor (concordant with the loop order or not, cbits/pbits present, zero or absent, interleaved "
                 "layouts) x {DRAM, optional cache, optional second buffet, buffet} with lazy and eager bindings and evict-on ranks x 0-2 intersectors of each type (any leader) "
                 "x optional sequencer; non-trivial = the dump hands at least one trace to a model",
